@@ -24,6 +24,9 @@ DOCS = [
     (u"d7", u"alfa bravo charlie", 5, u"y", False),      # third document with n = 5, in the last segment: collapse evictions of a kept document of a non-first segment
 ]
 GHOST = (u"gg", u"alfa alfa alfa", 0, u"x", True)
+# 'o': an order key that is not monotone in document order; among the three documents with n = 5 the last one (d7) lies strictly
+# between the other two, so with collapse_limit=2 it must push out the worst kept document, not be compared with the best
+ORD = {u"d0": u"b", u"d1": u"h", u"d2": u"g", u"d3": u"c", u"d4": u"a", u"d5": u"d", u"d6": u"f", u"d7": u"e", u"gg": u"z"}
 _S = {}
 
 
@@ -37,11 +40,11 @@ def schema(n_sortable=True):
     return fields.Schema(k=fields.ID(stored=True, unique=True, sortable=True), t=fields.TEXT(stored=True),
                          n=fields.NUMERIC(int, bits=16, signed=False, sortable=n_sortable, stored=True),
                          g=fields.KEYWORD(stored=True, sortable=False), b=fields.BOOLEAN(stored=True),
-                         u=fields.ID(stored=True))
+                         u=fields.ID(stored=True), o=fields.ID(stored=True, sortable=True))
 
 
 def add(w, d):
-    kw = dict(k=d[0], t=d[1], g=d[3], u=d[0][::-1])
+    kw = dict(k=d[0], t=d[1], g=d[3], u=d[0][::-1], o=ORD[d[0]])
     if d[2] is not None:
         kw["n"] = d[2]
     if d[4] is not None:
@@ -298,6 +301,20 @@ def run_views(view, qi, p1, p2):
                 want = [k for k in base if k in keep]
                 if got != want:
                     return "%s: collapse_limit=%d kept %r, expected %r" % (where, climit, got, want)
+            elif view == "collapse n ordered by o":
+                climit = p1 + 1
+                base = [hit["k"] for hit in s.search(mkq(), sortedby="k", limit=None)]
+                r = s.search(mkq(), sortedby="k", collapse="n", collapse_limit=climit, collapse_order=sorting.FieldFacet("o"), limit=None)
+                got = [hit["k"] for hit in r]
+                groups = {}
+                for k in base:
+                    groups.setdefault(nkey(byk[k]), []).append(k)
+                keep = set()
+                for key, ks in groups.items():
+                    keep |= set(sorted(ks, key=lambda k_: ORD[k_])[:climit])
+                want = [k for k in base if k in keep]
+                if got != want:
+                    return "%s: collapse_limit=%d kept %r, expected %r" % (where, climit, got, want)
             elif view.startswith("filter") or view.startswith("mask"):
                 fq = [query.Term("g", u"x"), query.NumericRange("n", 1, 5), query.Term("t", u"bravo")][p1]
                 fpred = [lambda d: u"x" in d[3].split(), lambda d: d[2] is not None and 1 <= d[2] <= 5, lambda d: u"bravo" in d[1].split()][p1]
@@ -331,7 +348,7 @@ def run_views(view, qi, p1, p2):
 
 
 VIEWS = ["groups g (overlapping)", "groups n", "groups query facet", "groups range facet", "collapse n", "collapse n ordered by k desc",
-         "filter", "mask", "collapse n scored"]
+         "filter", "mask", "collapse n scored", "collapse n ordered by o"]
 NV = len(VIEWS)
 
 
